@@ -1263,6 +1263,10 @@ class _AsyncConnectionWrapper:
                 # Push step (must be called from node thread)
                 self.input_node._submit(self.input_node.push_step)
 
+                # The next expected selection may already be complete (e.g. it expects zero messages).
+                # No other event would trigger it, so check again here.
+                self.push_selection()
+
 
 def update_input_state(input_state: base.InputState, seq: int, ts_sent: float, ts_recv: float, data: Any) -> base.InputState:
     new_input_state = input_state.push(seq, ts_sent, ts_recv, data)
